@@ -265,7 +265,7 @@ K(['C13'], 'c13-append-overwrites', MB, "                elif mode == 'append':\
 K(['C13'], 'c13-offset', MB, "        for mod_index in get_regex_match_indices(annotation.sequence, regex_str, offset=-1):\n            for list_of_mods in list_of_list_of_mods:",
   "        for mod_index in get_regex_match_indices(annotation.sequence, regex_str):\n            for list_of_mods in list_of_list_of_mods:", 'offset',
   'variable mods land one residue to the right')
-K(['C13'], 'c13-cterm-index', MB, "            if mod_index == len(annotation.sequence) - 1:", "            if mod_index == len(annotation.sequence):", 'terminal',
+K(['C13'], 'c13-cterm-index', MB, "            if mod_index == len(annotation.sequence) - 1:", "            if mod_index == len(annotation.sequence):", 'cterm rules act',
   'C-terminal rule never matches')
 K(['C13'], 'c13-mode-not-forwarded', MB, "                nterm_annot = apply_static_mods(annotation, {}, nterm_mods={regex_str: mods},\n                                                mode=mode, return_type='annotation')",
   "                nterm_annot = apply_static_mods(annotation, {}, nterm_mods={regex_str: mods},\n                                                return_type='annotation')", 'mode',
